@@ -1,7 +1,5 @@
 //! Two-way string matching on steroids.
 
-use std::cmp::max;
-
 use memchr_rs::memchr;
 
 const SIMD_THRESHOLD: usize = 16;
@@ -67,12 +65,14 @@ pub fn find(haystack: &str, needle: &str) -> Option<usize> {
         return None;
     }
 
-    let (crit, period) = crit_period(n);
+    let (crit, _) = crit_period(n);
     let anchor = n[crit];
 
     let mut offset = 0;
 
-    while offset + nlen <= hlen {
+    // `offset` is where the anchor byte `n[crit]` is searched from; the last
+    // position it can match at is `hlen - nlen + crit`.
+    while offset + (nlen - crit) <= hlen {
         let index = memchr(anchor, h, offset);
         if index >= hlen {
             return None;
@@ -88,8 +88,9 @@ pub fn find(haystack: &str, needle: &str) -> Option<usize> {
             return Some(start);
         }
 
-        let shift = max(1, period);
-        offset = start.saturating_add(shift);
+        // The anchor matched at `index` but the needle did not; the next candidate
+        // is the next occurrence of the anchor.
+        offset = index + 1;
     }
 
     None
@@ -100,9 +101,10 @@ fn maximal_suffix(x: &[u8], rev: bool) -> (usize, usize) {
     let n = x.len();
     let (mut i, mut j, mut k, mut p) = (0, 1, 1, 1);
 
+    // `k` counts from 1, so the bytes compared are at `i + k - 1` and `j + k - 1`.
     while j + k <= n {
-        let ap = x[i + k];
-        let a = x[j + k];
+        let ap = x[i + k - 1];
+        let a = x[j + k - 1];
         if (a < ap && !rev) || (a > ap && rev) {
             j += k;
             k = 1;
